@@ -158,10 +158,10 @@ theorem add_uses_parsed_tokens (o : Spec.Opts) (he : o.ensure = true) (size acc 
 /-- **tokens are decoded as everywhere else**: an add (with the option) at the pointer that spells
 the names `toks` with `~1` for `/` and `~0` for `~` puts the value at the unescaped names -/
 theorem tokens_decoded (o : Spec.Opts) (he : o.ensure = true) (size acc : Nat) (d v : Value)
-    (toks : List Bytes) (hne : toks ≠ []) (h : ∀ t ∈ toks, t ≠ []) (d' : Value) (acc' : Nat) :
+    (toks : List Bytes) (hne : toks ≠ []) (d' : Value) (acc' : Nat) :
     Spec.applyOp o size acc d { kind := .add, path := pointerOf toks, value := some v } = .ok (d', acc') →
     resolveAdded o d' toks = some v :=
-  Ens.tokens_decoded o he size acc d v toks hne h d' acc'
+  Ens.tokens_decoded o he size acc d v toks hne d' acc'
 
 /-! ## The engine refines the specification -/
 
@@ -381,7 +381,13 @@ example :
     resolveAdded { ensure := true } (.obj [(ascii "m/n", .obj [(ascii "k~", exV)])])
       [ascii "m/n", ascii "k~"] = some exV :=
   tokens_decoded { ensure := true } rfl 0 0 (.obj []) exV [ascii "m/n", ascii "k~"] (by simp)
-    (by decide) _ 0 (by rfl)
+    _ 0 (by rfl)
+/-- … and no name is excluded: the pointer `//k` creates the member `""` and addresses its member `k`
+(the empty reference token is the member name `""`, RFC 6901) -/
+example : pointerOf [[], ascii "k"] = ascii "//k" := by decide
+example :
+    resolveAdded { ensure := true } (.obj [([], .obj [(ascii "k", exV)])]) [[], ascii "k"] = some exV :=
+  tokens_decoded { ensure := true } rfl 0 0 (.obj []) exV [[], ascii "k"] (by simp) _ 0 (by rfl)
 
 /-! ### the engine -/
 
